@@ -182,6 +182,28 @@ def has_inv(res, inv):
     return False
 
 
+def exec_records_maybe_x(pid, tier, records, hashseed, extra_env, inv):
+    """like exec_records; for the cross-hashseed class every record is executed
+    under two hash seeds and the violation is 'digests differ'"""
+    if not inv.endswith("/hashseed"):
+        return exec_records(pid, tier, records, hashseed, extra_env)
+    a = exec_records(pid, tier, records, hashseed, extra_env)
+    hs2 = HASHSEEDS[(HASHSEEDS.index(hashseed) + 3) % len(HASHSEEDS)]
+    b = exec_records(pid, tier, records, hs2, extra_env)
+    out = []
+    for x, y in zip(a, b):
+        r = dict(x)
+        if x.get("err") or y.get("err"):
+            r["err"] = x.get("err") or y.get("err")
+        elif x.get("xdigest") != y.get("xdigest"):
+            r["viol"] = list(x.get("viol", [])) + [{
+                "inv": pid + ".variant_trace", "cls": inv,
+                "detail": {"hashseed_a": hashseed, "hashseed_b": hs2,
+                           "digest_a": x.get("xdigest"), "digest_b": y.get("xdigest")}}]
+        out.append(r)
+    return out
+
+
 def minimise(pid, tier, mod, rec, inv, hashseed, extra_env=None,
              budget_s=240, log=None):
     t0 = time.time()
@@ -196,7 +218,7 @@ def minimise(pid, tier, mod, rec, inv, hashseed, extra_env=None,
         cands = cands[:256]
         if not cands:
             break
-        res = exec_records(pid, tier, cands, hashseed, extra_env)
+        res = exec_records_maybe_x(pid, tier, cands, hashseed, extra_env, inv)
         pick = None
         for r in res:
             if has_inv(r, inv):
@@ -233,11 +255,15 @@ def replay_file(pid, path, tier="quick"):
     with open(path) as fp:
         doc = json.load(fp)
     rec = doc["record"]
+    inv = doc.get("violation", {}).get("cls") or doc.get("violation", {}).get("inv")
+    if inv and inv.endswith("/hashseed"):
+        r = exec_records_maybe_x(pid, doc.get("tier", tier), [rec], doc.get("hashseed", 0),
+                                 doc.get("env"), inv)[0]
+        return has_inv(r, inv), r
     res = run_chunk(pid, doc.get("tier", tier), [{"i": 0, "seed": doc.get("seed", 0),
                                                   "record": rec}],
                     doc.get("hashseed", 0), doc.get("env"))
     r = res[0]
-    inv = doc.get("violation", {}).get("cls") or doc.get("violation", {}).get("inv")
     return has_inv(r, inv) if inv else bool(r.get("viol")), r
 
 
@@ -300,6 +326,29 @@ def check(pid, tier, batch_seed):
     results, wall = run_batch(pid, tier, batch_seed, n_runs, wall_cap,
                               extra_env=extra_env)
     errs = [r for r in results if r.get("err")]
+    # the same scenarios again in fresh interpreters under other PYTHONHASHSEEDs
+    xmis = []
+    if getattr(mod, "CROSS_HASHSEED", False) and not errs:
+        os.environ["VERIF_HASHSEED_SHIFT"] = "3"
+        try:
+            res2, wall2 = run_batch(pid, tier, batch_seed, n_runs, wall_cap, extra_env=extra_env)
+        finally:
+            os.environ.pop("VERIF_HASHSEED_SHIFT", None)
+        wall += wall2
+        errs.extend(r for r in res2 if r.get("err"))
+        for a, b2 in zip(results, res2):
+            if a.get("err") or b2.get("err"):
+                continue
+            if a.get("xdigest") != b2.get("xdigest"):
+                xmis.append(a["i"])
+                a.setdefault("viol", []).append(
+                    {"inv": pid + ".variant_trace", "cls": pid + ".variant_trace/hashseed",
+                     "detail": {"hashseed_a": hashseed_of(a["i"]),
+                                "hashseed_b": HASHSEEDS[(a["i"] + 3) % len(HASHSEEDS)],
+                                "digest_a": a.get("xdigest"), "digest_b": b2.get("xdigest")}})
+        results_x = len(res2)
+    else:
+        results_x = 0
     viols = [r for r in results if r.get("viol")]
     stats, sigs = merge_stats(results)
     evaluations = sum(r.get("evals", 0) for r in results)
@@ -331,7 +380,7 @@ def check(pid, tier, batch_seed):
                 say("violation candidate: run=%d seed=%d inv=%s (%d runs show it)" % (
                     r["i"], r["seed"], inv, len(cands)))
                 small = minimise(pid, tier, mod, rec, inv, hs, extra_env, log=say)
-                res = exec_records(pid, tier, [small], hs, extra_env)[0]
+                res = exec_records_maybe_x(pid, tier, [small], hs, extra_env, inv)[0]
                 if not has_inv(res, inv):
                     say("HARNESS-ERROR property=%s minimised record does not reproduce %s" % (pid, inv))
                     exit_code = 2
@@ -398,6 +447,7 @@ def check(pid, tier, batch_seed):
                   "first_run_seed": results[0]["seed"] if results else None,
                   "last_run_seed": results[-1]["seed"] if results else None},
         "hashseeds": sorted(set(hashseed_of(i) for i in range(len(results)))),
+        "cross_hashseed_reruns": results_x,
         "workers": NPROC,
         "stats": stats,
         "known_findings_seen": known_seen + suppressed,
